@@ -15,7 +15,7 @@ import (
 // the process dying: routines that walk a tree recursively must not be handed a tree of unbounded depth.
 // tape: number of cells.
 var deepChain = &core.Check{Name: "c07/deep-chain", Hang: hang, Fn: func(c *core.Ctx) error {
-	n := 1 + c.Intn("cells", 6_000_000)
+	n := 1 + c.Intn("cells", 9_000_000)
 	c.Note("chain of cells", n)
 	c.NonTrivial(n)
 	size := 3
@@ -74,8 +74,9 @@ var deepChain = &core.Check{Name: "c07/deep-chain", Hang: hang, Fn: func(c *core
 }}
 
 func TestDeepChain(t *testing.T) {
-	core.RunEnum(t, deepChain, "chains of 1, 2, 1024, 1025, 1026, 1027, 5000, 70000, 1000000 and 4200000 cells (the last is a 24 MB input)", func(yield func(...uint64) bool) {
-		for _, n := range []uint64{1, 2, 1024, 1025, 1026, 1027, 5000, 70000, 1000000, 4200000} {
+	core.RunEnum(t, deepChain, "chains of 1, 2, 1024, 1025, 1026, 1027, 5000, 65537, 66561, 70000, 1000000, 4200000 and 8388609 cells (the last is a 48 MB input)", func(yield func(...uint64) bool) {
+		// 65537..66561 and 128*65536+1: lengths at which a 16-bit depth counter would have wrapped to a small value
+		for _, n := range []uint64{1, 2, 1024, 1025, 1026, 1027, 5000, 65537, 66561, 70000, 1000000, 4200000, 128*65536 + 1} {
 			if !yield(n - 1) {
 				return
 			}
